@@ -177,6 +177,30 @@ func checkC19(p *Prog, r *Report) {
 						operand = c.Call.Args[0]
 					}
 				}
+				// any other conversion of a fractional quantity (a parsed number of seconds, a quotient) to an integer type
+				// truncates toward zero unless it is rounded first: 1.5 s become 1 s
+				if rounding == "" {
+					fractional := false
+					for _, src := range []ssa.Value{operand} {
+						switch y := src.(type) {
+						case *ssa.Extract:
+							if c, isC := y.Tuple.(*ssa.Call); isC {
+								if cal := c.Call.StaticCallee(); cal != nil && fnPkgPath(cal) == "strconv" && cal.Name() == "ParseFloat" {
+									fractional = true
+								}
+							}
+						case *ssa.BinOp:
+							if y.Op == token.QUO {
+								fractional = true
+							}
+						}
+					}
+					if fractional {
+						nConv++
+						r.Fail("R2", FnName(fn)+"|fraction-truncated", p.InstrPos(cv), "a parsed or divided floating-point quantity is converted to an integer type without rounding: the fraction is cut off (1.5 becomes 1)")
+						continue
+					}
+				}
 				mul, ok := operand.(*ssa.BinOp)
 				if !ok || mul.Op != token.MUL {
 					continue
